@@ -150,7 +150,11 @@ func TestC14Fwd(t *testing.T) {
 		s.Dir.Verb = ax.verbs[rapid.IntRange(0, len(ax.verbs)-1).Draw(rt, "verb")]
 		switch rapid.IntRange(0, 7).Draw(rt, "runeverb") {
 		case 0: // any rune
-			s.Dir.Verb = B(string(rapid.Rune().Draw(rt, "anyverb")))
+			// (ASCII characters other than letters are flags, digits, '.', '[',
+			// '*', '%' or text: not verbs of a plain directive)
+			if r := rapid.Rune().Draw(rt, "anyverb"); r >= 0x80 || (r >= 'a' && r <= 'z') || (r >= 'A' && r <= 'Z') {
+				s.Dir.Verb = B(string(r))
+			}
 		case 1: // a rune congruent to an ASCII letter modulo 256 or 65536
 			l := rune(pick(rt, "letter", []string{"v", "s", "d", "x", "q", "X", "t", "e", "p", "T", "U", "c", "w", "L", "B"})[0])
 			if rapid.Bool().Draw(rt, "hi") {
